@@ -33,6 +33,7 @@ runs in both or in neither); no statement changed, and every theorem here speaks
 points.  The last example below is that path.
 -/
 import Restful.Lemmas.Coding
+import Restful.Lemmas.StateShape
 namespace Restful
 namespace Props
 open Serve Serve.Enc
@@ -252,6 +253,14 @@ example :
   decide
 
 end C07Witness
+
+/-! The frame condition (Lemmas/StateShape.lean): the code has exactly the state this property's model
+    accounts for — no further package-level variable, struct type or field; constants as modelled. -/
+-- also: Restful.StateShape.globals_shape
+-- also: Restful.StateShape.consts_shape
+-- also: Restful.StateShape.container_shape
+-- also: Restful.StateShape.response_shape
+-- also: Restful.StateShape.compress_shape
 
 end Props
 end Restful
